@@ -40,7 +40,8 @@ def run(rep):
     model = os.path.join(vlib.BUILD, "ocaml", "modelrun")
     rep.rule = ("(a) is_fully_optimized on the full grid sizes 0..12 x 0..12 x force; (b) structured PNGs x random options with force off "
                 "(incl. already-optimal files = outputs of a previous run, tiny 1x1 files, multi-IDAT files, APNGs), replayed on the model; "
-                "(c) repeated runs with the same options until a byte-level fixed point. Non-trivial = output differs from input, or the "
+                "(c) repeated runs with the same options until a byte-level fixed point; (d) the REAL executable on inputs that cannot be improved although "
+                "their re-encoding differs, through every routing (in place, --out, --dir, --stdout, stdin with implied / explicit stdout / --out). Non-trivial = output differs from input, or the "
                 "input was already optimal (equal-size decision taken).")
     # (a)
     cs = vlib.Cases()
@@ -113,6 +114,42 @@ def run(rep):
     if cur.lines and not quick:
         rep.notes.append(f"{len(cur.lines)} chains were still shrinking after 8 repeats (allowed: each step strictly shrinks)")
     rep.sample("optlog %s - <%d bytes>" % (cs.meta["c0"]["opts"], len(cs.meta["c0"]["png"])))
+    # (d) the routing half through the REAL executable: inputs that cannot be improved although their re-encoding differs
+    import subprocess
+    import tempfile
+    import shutil
+    cli = rep.info.get("cli")
+    mo = vlib.run_cases(model, ["o cli_options -"])["o"]
+    ods = e2e.optimal_differing(rng, impl, mo[3:], want=2 if quick else 6) if cli and mo.startswith("ok ") else []
+    rep.count("optimal-inputs-with-differing-re-encoding", len(ods))
+    tmp = tempfile.mkdtemp(prefix="oxiverif-c04-")
+    try:
+        for k, x in enumerate(ods):
+            for route in ("inplace", "out", "dir", "stdout", "stdin-implicit", "stdin-stdout", "stdin-out"):
+                d = os.path.join(tmp, f"{k}-{route}")
+                os.makedirs(d)
+                f = os.path.join(d, "in.png")
+                open(f, "wb").write(x)
+                os.utime(f, ns=(1_400_000_000_000_000_000, 1_400_000_000_000_000_000))
+                o2 = os.path.join(d, "out.png")
+                argv = {"inplace": [f], "out": ["--out", o2, f], "dir": ["--dir", os.path.join(d, "sub"), f], "stdout": ["--stdout", f],
+                        "stdin-implicit": ["-"], "stdin-stdout": ["--stdout", "-"], "stdin-out": ["--out", o2, "-"]}[route]
+                p = subprocess.run([cli] + argv, input=x if route.startswith("stdin") else None, stdout=subprocess.PIPE, stderr=subprocess.PIPE, timeout=300)
+                rep.evaluations += 1
+                rep.count("route:" + route)
+                rep.nontriv(("route", k, route))
+                got = {"inplace": lambda: open(f, "rb").read(), "out": lambda: open(o2, "rb").read() if os.path.exists(o2) else None,
+                       "dir": lambda: open(os.path.join(d, "sub", "in.png"), "rb").read() if os.path.exists(os.path.join(d, "sub", "in.png")) else None,
+                       "stdout": lambda: p.stdout, "stdin-implicit": lambda: p.stdout, "stdin-stdout": lambda: p.stdout,
+                       "stdin-out": lambda: open(o2, "rb").read() if os.path.exists(o2) else None}[route]()
+                desc = {"cases": [f"cli {' '.join(argv)}"], "input_hex": x.hex(), "route": route}
+                if p.returncode != 0 or got != x:
+                    rep.violation("C04:route:" + route, f"{route}: the input cannot be improved, yet the executable delivered "
+                                  f"{'nothing' if got is None else str(len(got)) + ' bytes that are not the original'} (exit {p.returncode}, input {len(x)} bytes)", desc)
+                if route == "inplace" and os.stat(f).st_mtime_ns != 1_400_000_000_000_000_000:
+                    rep.violation("C04:route:inplace-touched", "in place without improvement: the file was rewritten (modification time changed)", desc)
+    finally:
+        shutil.rmtree(tmp, ignore_errors=True)
 
 
 replay = c01.replay
